@@ -213,8 +213,12 @@ Step ==
               \* commit step: validators that disappeared while they still held distributable rewards
               LET gone  == { v \in ValNames(prev) \ ValNames(e.obs) : ValOf(prev, v).rd > 0 }
                   goneA == SumMap(prev.vals, LAMBDA v : IF v.v \in gone THEN v.rd ELSE 0)
-                  tg    == tags \cup (IF gone # {} THEN {"removed_with_rewards"} ELSE {})
-                  ta    == tagAmt - goneA
+                  \* inside a period every pending transaction listed before the roots were computed is still listed by the
+                  \* committed state; what was dropped took its detained value with it
+                  drop  == IF e.pe THEN 0 ELSE PendSum(prev) - PendSum(e.obs)
+                  dtag  == IF drop = 0 THEN {} ELSE IF NegRec(prev) THEN {"negative_record"} ELSE {"pending_dropped"}
+                  tg    == tags \cup (IF gone # {} THEN {"removed_with_rewards"} ELSE {}) \cup dtag
+                  ta    == tagAmt - goneA - drop
                   d     == Total(e.obs, TRUE) - Total(bnd, TRUE) IN
               /\ prev' = e.obs /\ bnd' = e.obs /\ tags' = {} /\ tagAmt' = 0
               /\ UNCHANGED have
@@ -222,6 +226,7 @@ Step ==
               /\ viol' = viol \cup (IF d = 0 THEN {}
                                     ELSE { <<"Total", IF d # ta \/ tg = {} \/ "unexplained" \in tg THEN {"unexplained"} ELSE tg, l>> })
                               \cup (IF gone # {} THEN { <<"RewardsNeverLost", {"removed_with_rewards"}, l>> } ELSE {})
+                              \cup (IF drop # 0 THEN { <<"FailedActivationRefunded", dtag, l>> } ELSE {})
         [] OTHER -> UNCHANGED <<have, prev, bnd, tags, tagAmt, viol, fired>>
 
 Spec == Init /\ [][Step]_vars
